@@ -936,7 +936,7 @@ func (g *Gen) execInstr(in ssa.Instruction, st *State) {
 		ks := g.sortOf(mt.Key())
 		st.heap[dn] = g.defineRaw("h", ds, fmt.Sprintf("(store %s %s ((as const (Array %s Bool)) false))", hd, id, ks.SMT()))
 		g.setVal(x, Val{T: id, S: sRef, G: x.Type()})
-		g.assume(st.reach, fmt.Sprintf("(= (map.len %s %s) 0)", st.heap[dn], id))
+		g.assume(st.reach, fmt.Sprintf("(= (%s %s %s) 0)", mapLenFn(ks), st.heap[dn], id))
 	case *ssa.MakeInterface:
 		v := g.val(x.X, st)
 		g.setVal(x, g.makeIface(v, x.X.Type()))
@@ -1313,9 +1313,17 @@ func (g *Gen) mapNames(mt *types.Map) (string, string) {
 	return "MD_" + k, "MV_" + k
 }
 
+// mapLenFn: the length function of maps with this key sort (one function symbol per key sort)
+func mapLenFn(ks *Sort) string {
+	if ks.SMT() == "Str" {
+		return "map.len"
+	}
+	return "map.len." + ks.Key()
+}
+
 func (g *Gen) mapSorts(mt *types.Map) (string, string) {
 	ks, vs := g.sortOf(mt.Key()), g.sortOf(mt.Elem())
-	g.declareFun("map.len", fmt.Sprintf("((Array Int (Array %s Bool)) Int) Int", ks.SMT()))
+	g.declareFun(mapLenFn(ks), fmt.Sprintf("((Array Int (Array %s Bool)) Int) Int", ks.SMT()))
 	return fmt.Sprintf("(Array Int (Array %s Bool))", ks.SMT()), fmt.Sprintf("(Array Int (Array %s %s))", ks.SMT(), vs.SMT())
 }
 
@@ -1362,7 +1370,8 @@ func (g *Gen) execMapUpdate(x *ssa.MapUpdate, st *State) {
 	st.heap[vn] = g.defineRaw("h", vs, fmt.Sprintf("(store %[1]s %[2]s (store (select %[1]s %[2]s) %[3]s %[4]s))", hv, m.T, k.T, v.T))
 	// length fact
 	was := fmt.Sprintf("(select (select %s %s) %s)", hd, m.T, k.T)
-	g.assume(st.reach, fmt.Sprintf("(= (map.len %s %s) (ite %s (map.len %s %s) (+ (map.len %s %s) 1)))", nd, m.T, was, hd, m.T, hd, m.T))
+	ml := mapLenFn(g.sortOf(t.Key()))
+	g.assume(st.reach, fmt.Sprintf("(= (%[7]s %[1]s %[2]s) (ite %[3]s (%[7]s %[4]s %[5]s) (+ (%[7]s %[6]s %[2]s) 1)))", nd, m.T, was, hd, m.T, hd, ml))
 }
 
 // ---------------------------------------------------------------- interfaces
@@ -1891,6 +1900,78 @@ func (g *Gen) fieldCover(fc *FieldCoverSpec) {
 			case *ssa.Field:
 				if !fc.Writes && types.Identical(x.X.Type(), named) && isBase(x.X) {
 					covered[x.Field] = true
+				}
+			}
+		}
+	}
+	if fc.Writes && fc.AllPaths {
+		// must-analysis over the CFG: a field counts only if a store to it happens on every path from the entry
+		// to every return (IN[b] = intersection of OUT[preds], OUT[b] = IN[b] + stores in b)
+		gen := map[*ssa.BasicBlock]map[int]bool{}
+		for _, b := range g.fn.Blocks {
+			gen[b] = map[int]bool{}
+			for _, in := range b.Instrs {
+				if st, ok := in.(*ssa.Store); ok {
+					if fa, ok := st.Addr.(*ssa.FieldAddr); ok && types.Identical(fa.X.Type().Underlying().(*types.Pointer).Elem(), named) {
+						gen[b][fa.Field] = true
+					}
+				}
+			}
+		}
+		all := map[int]bool{}
+		for i := 0; i < stt.NumFields(); i++ {
+			all[i] = true
+		}
+		out := map[*ssa.BasicBlock]map[int]bool{}
+		for _, b := range g.fn.Blocks {
+			out[b] = all
+		}
+		changed := true
+		for changed {
+			changed = false
+			for _, b := range g.fn.Blocks {
+				in := map[int]bool{}
+				if len(b.Preds) > 0 {
+					for f := range all {
+						ok := true
+						for _, p := range b.Preds {
+							if !out[p][f] {
+								ok = false
+							}
+						}
+						if ok {
+							in[f] = true
+						}
+					}
+				}
+				for f := range gen[b] {
+					in[f] = true
+				}
+				if len(in) != len(out[b]) {
+					out[b] = in
+					changed = true
+				}
+			}
+		}
+		covered = map[int]bool{}
+		first := true
+		for _, b := range g.fn.Blocks {
+			if len(b.Instrs) == 0 {
+				continue
+			}
+			if _, ok := b.Instrs[len(b.Instrs)-1].(*ssa.Return); !ok {
+				continue
+			}
+			if first {
+				for f := range out[b] {
+					covered[f] = true
+				}
+				first = false
+				continue
+			}
+			for f := range covered {
+				if !out[b][f] {
+					delete(covered, f)
 				}
 			}
 		}
